@@ -10,7 +10,7 @@ def run(ctx):
                             constants={"AddrIds": ctx.pick('{"a1", "a2"}', '{"a1"}'),
                                        "ValIds": ctx.pick('{"x"}', '{"x", "e"}'), "MaxPos": 1},
                             coverage=True, timeout=ctx.pick(900, 3400))
-        ctx.check_coverage(r, ["AddLog", "AddItem", "Merge", "Collect", "MergeNil", "Roundtrip", "Contain", "Query", "QueryLog"])
+        ctx.check_coverage(r, ["AddLog", "AddItem", "Merge", "Collect", "MergeNil", "Roundtrip", "Serialize", "Contain", "Query", "QueryLog"])
         ctx.exhaustive = True
         # 2. behaviours: every pair of calls (BFS, depth 2) + random walks
         bs = ctx.behaviours("data", "Gen_Bloom", "Gen_Bloom.cfg",
@@ -19,7 +19,14 @@ def run(ctx):
         wl = ctx.pick(14, 24)
         walks = ctx.behaviours("data", "Gen_Bloom", "Gen_Bloom.cfg", constants={"MaxOps": wl, "Depth": wl, "MaxPos": 2},
                                simulate="num=%d" % ctx.pick(60, 600), depth=wl + 1, seed=ctx.seed, timeout=1200)
-        allb = bs + walks
+        # every history of 2 fixed calls (one item into the block bloom, one into the receipt bloom) + 3 calls out of mutate / round trip / serialize on one receipt bloom and the block bloom
+        # (serialize - mutate - serialize on the SAME object; read-only queries switched off)
+        ser = ctx.behaviours("data", "Gen_Bloom", "Gen_Bloom.cfg",
+                             constants={"BloomIds": '{"r1", "blk"}', "AddrIds": '{"a1"}', "ValIds": '{"x"}', "MaxPos": 0,
+                                        "Kinds": '{"compress", "rlp", "json"}', "Reads": "FALSE", "Prefill": "TRUE",
+                                        "MaxOps": 5, "Depth": 5},
+                             timeout=1200)
+        allb = bs + walks + ser
     else:
         allb = [json.load(open(ctx.replay))["detail"]["behaviour"]]
     inp = ctx.path("in", "behaviours.ndjson")
@@ -38,7 +45,8 @@ def run(ctx):
     return ctx.finish(
         rule="a behaviour = one TLC-generated call sequence (AddLog / AddAddressOfLog / AddIndexedOfLog / Merge / "
              "Merge(nil) / Collect (block bloom = merge of the blooms of the receipts read back from a real receipt list) "
-             "/ 5 serialization round trips / Contain / single-item and whole-log queries) on two receipt blooms (in "
+             "/ 5 serialization round trips (object replaced by the decoded one) / 5 serializations observed on the SAME "
+             "object (must describe its current content; all 3-call mutate/serialize histories) / Contain / single-item and whole-log queries) on two receipt blooms (in "
              "half of the runs living inside real txresult receipts with event logs of 0..3 indexed fields) and a block bloom: all of depth 2 by BFS + random walks; distinct by its call sequence; "
              "non-trivial if it adds or merges something; addresses and values are seeded random bytes",
         assumptions=["SHA3-256 is trusted; a bit is the symbolic term <item, k> in the spec and is evaluated with the "
